@@ -63,6 +63,8 @@ func run(args []string, stderr io.Writer) int {
 		report  = fs.String("report", "", "report JSON to write (default OUT/report.json)")
 		tags    = fs.String("tags", "verif", "comma separated build tags, added to linux,amd64,gc,go1.1..go1.21")
 		check   = fs.Bool("check", true, "parse and type-check the instrumented output")
+		as      = fs.String("as", "", "directory the overlay keys refer to (default: -repo); lets a tree elsewhere stand in for /repo")
+		plain   = fs.String("plain-overlay", "", "also write an overlay mapping the -as paths to the un-instrumented files of -repo")
 	)
 	if err := fs.Parse(args); err != nil {
 		return exitFail
@@ -87,7 +89,16 @@ func run(args []string, stderr io.Writer) int {
 	if *report == "" {
 		*report = filepath.Join(absOut, "report.json")
 	}
+	absAs := absRepo
+	if *as != "" {
+		if absAs, err = filepath.Abs(*as); err != nil {
+			fmt.Fprintln(stderr, "mqinstr:", err)
+			return exitFail
+		}
+	}
 	t := &tool{
+		as:     absAs,
+		plain:  *plain,
 		repo:   absRepo,
 		out:    absOut,
 		tags:   tagSet(*tags),
@@ -121,6 +132,7 @@ func (e typeErrors) Error() string {
 
 type tool struct {
 	repo, out string
+	as, plain string
 	tags      map[string]bool
 	check     bool
 	stderr    io.Writer
@@ -185,10 +197,29 @@ func (t *tool) do(overlayPath, reportPath string) error {
 			return fmt.Errorf("%s: %v", f.name, err)
 		}
 		written[f.name] = src
-		replace[f.path] = filepath.Join(t.out, f.name)
+		replace[filepath.Join(t.as, f.name)] = filepath.Join(t.out, f.name)
 	}
 	written[genFile] = generate(t.pkgName(), in.stepPos, rep.Globals)
-	replace[filepath.Join(t.repo, genFile)] = filepath.Join(t.out, genFile)
+	replace[filepath.Join(t.as, genFile)] = filepath.Join(t.out, genFile)
+	if t.as != t.repo {
+		// files that are not instrumented (the hooks file) still come from -repo
+		for _, f := range t.files {
+			if f.hooks {
+				replace[filepath.Join(t.as, f.name)] = f.path
+			}
+		}
+	}
+	if t.plain != "" {
+		raw := map[string]string{}
+		for _, f := range t.files {
+			raw[filepath.Join(t.as, f.name)] = f.path
+		}
+		if err := writeJSON(t.plain, struct {
+			Replace map[string]string
+		}{raw}); err != nil {
+			return err
+		}
+	}
 
 	if t.check {
 		if err := t.checkOutput(written); err != nil {
